@@ -382,7 +382,7 @@ pub fn decode_fuzz_input(data: &[u8]) -> Option<(SessionCfg, Vec<Op>)> {
         cmd: (data[0] % 65) as usize,
         hist: (data[1] % 65) as usize,
         prompt: ((data[2] >> 2) % 6) as usize,
-        set: [SetKind::Raw, SetKind::FixA, SetKind::FixG, SetKind::Raw][(data[2] & 3) as usize],
+        set: [SetKind::Raw, SetKind::FixA, SetKind::FixG, SetKind::FixU][(data[2] & 3) as usize],
         use_new: data[2] & 0x40 != 0,
         chunk: if data[2] & 0x80 != 0 { 1 } else { 0 },
         script: if data[2] & 0x20 != 0 {
